@@ -1353,8 +1353,8 @@ package stun
 //@   safety C10 C11 C12
 //@   props C12
 //@   requires t != nil
-//@   assigns t.raw, t.start, t.attempt, t.id, gmap(pooled)[region(t)]
-//@   ensures len(t.raw) == 0 && t.attempt == 0 && gmap(pooled)[region(t)] == 1
+//@   assigns t.raw, t.start, t.attempt, t.id
+//@   ensures len(t.raw) == 0 && t.attempt == 0
 
 // start: register t under its id unless the client is closed (checked first) or the id is taken
 //@ func (*Client).start
@@ -1376,7 +1376,7 @@ package stun
 
 // ---- the client's collaborators as ghost logs (interface contracts: assumed of every implementation) ----
 // connection writes: entry k of the write log holds the bytes handed to Write and the error it returned
-//@ define Wrote(k, p) = gmap(wr_len)[k] == len(p) && forall(j, 0, len(p), gmapa(wr_data)[k][j] == p[j])
+//@ define Wrote(k, p) = gmap(wr_len)[k] == len(p) && forallv(j, 0, len(p), gmapa(wr_data)[k][j] == p[j])
 //@ define Writes(n) = ghost(wr_n) == old(ghost(wr_n)) + n
 //@ func Connection.Write(w, p)
 //@   assigns ghost(wr_n), gmapa(wr_data)[ghost(wr_n)], gmap(wr_len)[ghost(wr_n)], gmap(wr_errt)[ghost(wr_n)], gmap(wr_errv)[ghost(wr_n)]
@@ -1454,7 +1454,8 @@ package stun
 
 // ClientReady: what NewClient establishes and every method keeps
 //@ define ClientReady(c) = ClientInv(c) && c.clock != nil && c.collector != nil
-//@   | && forallkey(k, haskey(c.t, k) ==> c.t[k] != nil && c.t[k].id == k && c.t[k].h != nil && c.t[k].calls == 0 && 0 <= c.t[k].attempt && c.t[k].attempt < 2147483647)
+//@   | && forallkey(k, haskey(c.t, k) ==> c.t[k] != nil && c.t[k].id == k && c.t[k].h != nil && c.t[k].calls == 0 && 0 <= c.t[k].attempt && (c.t[k].attempt == 0 || c.t[k].attempt <= c.maxAttempts))
+//@   | && c.maxAttempts < 2147483646
 //@ define Registered(c, id, t) = haskey(c.t, id) && c.t[id] == t
 //@ define LastWriteErr() = gmap(wr_errt)[ghost(wr_n) - 1] != 0
 
@@ -1485,3 +1486,40 @@ package stun
 //@   ensures result != nil && c != nil && !old(haskey(c.t, msg.TransactionID)) ==> !haskey(c.t, msg.TransactionID) && TableExcept(c, msg.TransactionID)
 //@   ensures ghost(wr_n) <= old(ghost(wr_n)) + 1
 //@   ensures NoEvent()
+
+// handleAgentCallback: what the client does with one agent event (id = event.TransactionID, T = the registered transaction).
+//   not registered  -> table untouched, nothing written; the fallback handler (if any, client open, not a "stopped" event) sees the event
+//   registered and (client closed | attempts used up | no error) -> completed: removed, T's handler invoked exactly once with this very event
+//   registered otherwise -> retransmission: attempt+1, re-registered, agent restarted with now + (attempt+1) * T's own RTO,
+//                           exactly one write carrying exactly T.raw; if any step fails: removed and T's handler invoked once with that error
+//@ define Completes(c, event) = old(c.closed) || old(c.maxAttempts) <= old(c.t[event.TransactionID].attempt) || event.Error == nil
+//@ define EvLogged(k, id, h) = gmapa(ev_tid)[k] == id && gmap(ev_h)[k] == h
+//@ func (*Client).handleAgentCallback
+//@   safety C10 C11 C12 C15
+//@   props C10 C12
+//@   requires ClientReady(c) && c.c != nil && c.a != nil
+//@   assigns mem(c.t), gmap(held)[region(c)], ghost(now_last), ghost(wr_n), gmapa(wr_data), gmap(wr_len), gmap(wr_errt), gmap(wr_errv), ghost(ag_n), gmap(ag_op), gmapa(ag_id), gmap(ag_dl), gmap(ag_errt), gmap(ag_errv)
+//@   | , ghost(ev_n), gmapa(ev_tid), gmap(ev_errt), gmap(ev_errv), gmap(ev_msg), gmap(ev_h), *old(c.t[event.TransactionID])
+//@   allocates
+//@   ensures c.closed == old(c.closed) && gmap(held)[region(c)] == 0
+//@   ensures ghost(ev_n) <= old(ghost(ev_n)) + 1 && ghost(wr_n) <= old(ghost(wr_n)) + 1
+// routing (C12): only the transaction registered under the event's id is touched
+//@   ensures TableExcept(c, event.TransactionID)
+//@   ensures !old(haskey(c.t, event.TransactionID)) ==> !haskey(c.t, event.TransactionID) && Writes(0) && AgentOps(0)
+//@   ensures !old(haskey(c.t, event.TransactionID)) && (old(c.closed) || c.handler == nil) ==> NoEvent()
+//@   ensures !old(haskey(c.t, event.TransactionID)) && ghost(ev_n) > old(ghost(ev_n)) ==> EvLogged(old(ghost(ev_n)), event.TransactionID, c.handler) && gmap(ev_msg)[old(ghost(ev_n))] == region(event.Message)
+// any handler invocation for a registered id goes to that transaction's handler, with the event's message (C12)
+//@   ensures old(haskey(c.t, event.TransactionID)) && ghost(ev_n) > old(ghost(ev_n)) ==> EvLogged(old(ghost(ev_n)), event.TransactionID, old(c.t[event.TransactionID].h)) && gmap(ev_msg)[old(ghost(ev_n))] == region(event.Message)
+// completion (C10)
+//@   props C10
+//@   ensures old(haskey(c.t, event.TransactionID)) && Completes(c, event) ==> !haskey(c.t, event.TransactionID) && ghost(ev_n) == old(ghost(ev_n)) + 1 && Writes(0) && AgentOps(0)
+//@   ensures old(haskey(c.t, event.TransactionID)) && Completes(c, event) ==> gmap(ev_errt)[old(ghost(ev_n))] == errtag(event.Error) && gmap(ev_errv)[old(ghost(ev_n))] == errval(event.Error)
+// exactly one of: handler invoked and unregistered / still registered and no handler (C10: never lost, never twice)
+//@   ensures old(haskey(c.t, event.TransactionID)) ==> (ghost(ev_n) == old(ghost(ev_n)) + 1 && !haskey(c.t, event.TransactionID)) || (NoEvent() && Registered(c, event.TransactionID, old(c.t[event.TransactionID])))
+// retransmission (C11)
+//@   props C11
+//@   ensures old(haskey(c.t, event.TransactionID)) && !Completes(c, event) ==> ghost(ag_n) >= old(ghost(ag_n)) + 1 && AgentOp(old(ghost(ag_n)), 1, event.TransactionID)
+//@   ensures old(haskey(c.t, event.TransactionID)) && !Completes(c, event) ==> gmap(ag_dl)[old(ghost(ag_n))] == ghost(now_last) + (old(c.t[event.TransactionID].attempt) + 2) * old(c.t[event.TransactionID].rto)
+//@   ensures old(haskey(c.t, event.TransactionID)) && !Completes(c, event) && gmap(ag_errt)[old(ghost(ag_n))] == 0 ==> Writes(1) && Wrote(old(ghost(wr_n)), old(c.t[event.TransactionID].raw))
+//@   ensures old(haskey(c.t, event.TransactionID)) && !Completes(c, event) && NoEvent() ==> c.t[event.TransactionID].attempt == old(c.t[event.TransactionID].attempt) + 1 && Writes(1) && gmap(wr_errt)[old(ghost(wr_n))] == 0
+//@   ensures old(haskey(c.t, event.TransactionID)) && NoEvent() ==> bytes_eq_old(c.t[event.TransactionID].raw, c.t[event.TransactionID].raw) && c.t[event.TransactionID].rto == old(c.t[event.TransactionID].rto)
